@@ -133,7 +133,8 @@ var dateTimeParser = date.NewParser([]string{
 // day 		- the 12:00AM of today
 // week 	- the timestamp of Sunday 12:00AM for the current week
 func parseLqlDateTime(dt0 string) (time.Time, error) {
-	dt := strings.ToLower(strings.Trim(dt0, " "))
+	dtTrimmed := strings.Trim(dt0, " ")
+	dt := strings.ToLower(dtTrimmed)
 
 	tm, err := parseRalativeDateTime(dt)
 	if err == nil {
@@ -145,7 +146,9 @@ func parseLqlDateTime(dt0 string) (time.Time, error) {
 		return tm, nil
 	}
 
-	tm, fm := dateTimeParser.Parse(bytes.StringToByteArray(dt))
+	// the date-time formats are case sensitive (month and weekday names, the 'T' separator,
+	// AM/PM, zone names), so they must see the literal as it was written, not lower-cased
+	tm, fm := dateTimeParser.Parse(bytes.StringToByteArray(dtTrimmed))
 	if fm != nil {
 		return tm, nil
 	}
